@@ -69,6 +69,27 @@ where
             return v;
         }
     }
+    // a joint opening of all of them is no larger than the separate openings together (each entry follows the same
+    // law; nothing is shared upwards between entries of different size)
+    if w.lps.len() > 1 {
+        let all: Vec<usize> = (0..w.lps.len()).collect();
+        let sp0 = sponge(cfg, 1);
+        let joint = match w.open(&all, 0, &mut sp0.clone()) {
+            Ok(p) => p,
+            Err(e) => return Verdict::viol(&format!("open-err:{}", e), e.clone()),
+        };
+        let mut separate = 0usize;
+        for pi in all.iter() {
+            match w.open(&[*pi], 0, &mut sp0.clone()) {
+                Ok(p) => separate += count(&p).0,
+                Err(e) => return Verdict::viol(&format!("open-err:{}", e), e.clone()),
+            }
+        }
+        let (nj, bytes) = count(&joint);
+        if nj != separate {
+            return Verdict::viol("proof-size", format!("a joint opening of {} polynomials serializes {} elements ({} bytes), their separate openings {} together", all.len(), nj, bytes, separate));
+        }
+    }
     Verdict::Hold
 }
 
